@@ -483,6 +483,7 @@ def cases(tier, what="forward"):
                         # has no folding: the call must be refused, not folded from a subset of the blocks
                         lH = lattice.conv_out(H, k[0], s[0], p[0], d[0]); lW = L // lH
                         for Lbad in sorted({L + 1, L - 1, L + lH, L + lW, 2 * L} - {0, L}):
+                            if N * Ci * k[0] * k[1] * Lbad > 1900: continue        # the value alphabet holds 1990 separated values
                             add("fold", [(N, Ci * k[0] * k[1], Lbad)], dict(args, kernel_size=sp(k, 0), output_size=[H, W]), form="fn" if Lbad % 2 else "layer")
     n = 0
     for (ga, gb) in geoms2d(tier, pool=True, grad=not fw):
